@@ -4,6 +4,6 @@ use parity_scale_codec::{Compact, Decode, Encode};
 pub enum T {
 	#[codec(skip)] V0,
 	V1,
-	#[codec(skip)] #[codec(index = 0)] V2,
+	#[codec(index = 0)] #[codec(skip)] V2,
 }
 fn main() {}
